@@ -148,10 +148,14 @@ CLAIMS = {
         text="Proof (Lean 4) about Model/Dll22.lean (the whole FD data link layer: FD.TP RTS/CTS/EOM/BAM, session pools, multi-PG): a message "
              "of more than 60 bytes is refused exactly when no session number of its kind is free, and then nothing is emitted and the state "
              "is EQUAL; an accepted one takes exactly one free number (other flags unchanged, pool size kept); NO received frame of any kind "
-             "changes either pool (inbound never consumes outbound capacity); the advertised capacity is the reflected 8 + 4.  Partial: "
-             "exactly-once byte-identical delivery of concurrent sessions is not yet a Lean theorem for J1939-22 — it is established by the "
-             "lock-step correspondence of the model with j1939_22.py (nominal, hostile, lossy scripts with table dumps) and by the network "
-             "oracle on 2-3 real stacks (up to 10 + 5 sessions per originator, residues mod 60, windows 1..255).",
+             "changes either pool (inbound never consumes outbound capacity); the advertised capacity is the reflected 8 + 4; DATA PATH: the "
+             "stored chunks are the consecutive 60-byte pieces of the message and concatenate to it (every length); the FD.TP.DT frame the "
+             "stack builds for segment k yields, through the receive path's own field extraction, the session, segment number k+1 and the "
+             "k-th chunk (+ padding on the last segment only); a responder record fed the segment frames of ANY conforming originator in "
+             "order at arbitrary times and then the end-of-message status hands the message up exactly once, byte-identical, with the "
+             "announced PGN, removes the record and never touches the send table (induction over the segments; broadcast and connection "
+             "mode).  Partial: the originator's send loop and the interleaving of concurrent sessions on 2-3 stacks are established by the "
+             "lock-step correspondence (nominal, hostile, lossy scripts with table dumps) and the network oracle, not by one theorem.",
         note="Proved/validated for the code as repaired by fix commits D5+D3, D22, D2, D24, D4, D23b (known_findings.json). Trusted: Lean kernel; "
              "numpy chunking modelled as 60-byte chunks (differential-tested); handler atomicity (latency > 0 as the property states).",
         technique="Lean 4 theorems over a hand model of j1939_22.py with regenerated leaves; lock-step correspondence; network oracle on real stacks",
@@ -181,8 +185,11 @@ CLAIMS = {
              "count / requester, the client's call returns exactly the served bytes (raw) or their values, respond() returns exactly the "
              "little-endian bytes of the written values, and BOTH nodes are clean afterwards (three state machines idle, queues empty, only "
              "the facade subscribed, server bound to nobody); by induction any sequence of such transactions (c17_back_to_back); the "
-             "configuration of a node is invariant under every operation.  Partial: with seed/key the two handshake steps are proved in C18 "
-             "but not composed into a whole-transaction theorem; the composition with the transport (frame level) is by the oracle.",
+             "configuration of a node is invariant under every operation; SEED/KEY: opening DM14 -> seed DM15 (any seed the generator returns) "
+             "-> key DM14 (the client's key function of exactly that seed) -> application consulted once with command/address/pointer type/"
+             "count/requester/key/seed, after which the server is in the same Accepted state as without seed/key, so the serving, data and "
+             "closing lemmas apply unchanged (c17_seedkey_handshake).  Partial: the back-to-back induction is stated for servers without "
+             "seed/key; the composition with the transport (frame level) is by the oracle.",
         note="Proved for the code as repaired by D13, D14, D15, D16, D21 (each theorem is false on the unrepaired code: 8-byte reads, count > 1, "
              "back-to-back). Tie: lock-step correspondence of the model with the REAL three classes on a real ECU/CA (blocking calls run in "
              "cooperative helper threads; recorded multi-node scripts incl. hostile PDUs, resets, timeouts, address 0); oracle: real objects "
@@ -209,8 +216,10 @@ CLAIMS = {
              "in ANY facade state and with ANY handlers registered leaves the node EXACTLY equal, runs neither callback, raises nothing and "
              "emits only DM15 'operation failed' PDUs addressed to the intruder (induction over the live subscriber loop); hence any number "
              "of intruding requests leave the running transaction's future unchanged (c19_intruders_noop); with nothing subscribed the "
-             "request is not looked at.  Partial: that every intermediate state of a transaction satisfies InTx is shown by example for the "
-             "opening states and exercised at every bus frame by the oracle, not proved as an invariant.",
+             "request is not looked at; every server-side state the whole-transaction theorems of C17 go through (after the opening DM14, while "
+             "a multi-packet DM16 is under way, while written data is awaited, while the closing DM14 is awaited) satisfies InTx.  Partial: "
+             "InTx is proved for those transaction states, not as an invariant of all reachable states (e.g. histories with resets); the "
+             "oracle injects at every bus frame.",
         note="Holds on the unchanged tree (no fix needed). Same tie as C17. Oracle: intruder after every bus frame of every shape, incl. requester "
              "address 0.",
         technique="Lean 4 no-op theorem by induction over the live-iterated subscriber list; lock-step correspondence; injection oracle",
